@@ -203,6 +203,18 @@ Proof.
   eapply plan_single_chain; eauto. eapply lin_amo; eauto.
 Qed.
 
+(* conflict-free mode: as long as no acknowledged pushed revision carried ForceAllowConflictingTombstone, every
+   revision is the only child of its parent *)
+Lemma lin_uc tab cs : lin_commits false tab cs ->
+  (forall c, In c cs -> w_push (c_op c) <> [] -> o_force (w_opt (c_op c)) = false) -> uc (flat_map c_added cs).
+Proof.
+  induction 1 as [|cs c Hl IH (Hp & _)]; intros Hnf; [apply uc_nil|].
+  rewrite flat_map_app. cbn. rewrite app_nil_r.
+  assert (U : uc (flat_map c_added cs)) by (apply IH; intros c0 Hc0; apply Hnf, in_or_app; left; exact Hc0).
+  destruct (plan_uc _ _ _ _ _ _ (lin_wf _ _ _ Hl) U Hp) as [U'|(Hpush & Hf & _)]; [exact U'|].
+  rewrite (Hnf c) in Hf; [discriminate | apply in_or_app; right; left; reflexivity | exact Hpush].
+Qed.
+
 Lemma lin_put_single ac tab cs : lin_commits ac tab cs -> forall c, In c cs -> c_put c = true -> length (c_added c) = 1%nat.
 Proof.
   intros Hl c Hc Hput. apply in_split in Hc as (l1 & l2 & ->).
@@ -277,6 +289,22 @@ Section Thm.
     apply G. intros c Hc. apply H1; auto.
   Qed.
 
+  (* one accepted child per parent, the single write: an acknowledged write for which conflicts are disallowed (by
+     the database, or by its own NoConflicts option) either is a forced tombstone written onto a tombstoned
+     document, or every revision it added is the only child of its parent *)
+  Theorem noconflict_write_second_child_only_forced l1 c l2 :
+    commits s = l1 ++ c :: l2 -> ac && negb (o_noconf (w_opt (c_op c))) = false ->
+    (c_put c = false /\ w_push (c_op c) <> [] /\ o_force (w_opt (c_op c)) = true /\
+     tree_tombstoned (flat_map c_added l1) = true) \/
+    (forall x y q, In x (flat_map c_added l1 ++ c_added c) -> In y (c_added c) ->
+                   r_parent x = Some q -> r_parent y = Some q -> x = y).
+  Proof.
+    intros E Hcf. pose proof (run_linv ac tab ops sched) as L. fold s in L.
+    destruct (lin_commits_split ac tab _ (li_lin _ _ _ _ L) l1 c l2 E) as (Hl1 & Hp & _ & _ & _ & Eput).
+    destruct (plan_new_only_child _ _ _ _ _ _ _ (lin_wf _ _ _ Hl1) Hcf Hp) as [(Hpush & Hf & Ht)|H]; [left | right; exact H].
+    split; [|auto]. rewrite Eput. destruct (w_push (c_op c)); [congruence | reflexivity].
+  Qed.
+
   (* (3) the stored current revision is the winner of the stored tree, i.e. its maximal leaf; the stored sequence
      and current revision are those of the last commit *)
   Theorem feed_final_rev :
@@ -339,17 +367,41 @@ Section ConflictFree.
     apply lin_live with false tab; [apply (li_lin _ _ _ _ L)|]. intros c Hc.
     destruct (commits_are_acks false tab ops sched c Hc) as (_ & _ & _ & _ & Hin). apply Hd, Hin.
   Qed.
+
+  (* ONE ACCEPTED CHILD PER PARENT, all writers.  Each acknowledged write either
+       (1) is a pushed revision written with ForceAllowConflictingTombstone onto a document that was a tombstone
+           when its (successful) callback ran -- the only way to skip the conflict check -- or
+       (2) every revision it added is, at its commit, the ONLY child of its parent: the parent had no child in the
+           tree the earlier commits produced, and the write itself adds one child per parent. *)
+  Theorem conflict_free_second_child_only_forced l1 c l2 :
+    commits s = l1 ++ c :: l2 ->
+    (c_put c = false /\ w_push (c_op c) <> [] /\ o_force (w_opt (c_op c)) = true /\
+     tree_tombstoned (flat_map c_added l1) = true) \/
+    (forall x y q, In x (flat_map c_added l1 ++ c_added c) -> In y (c_added c) ->
+                   r_parent x = Some q -> r_parent y = Some q -> x = y).
+  Proof.
+    intros E. exact (noconflict_write_second_child_only_forced false tab ops sched l1 c l2 E eq_refl).
+  Qed.
+
+  (* hence: when no pushed revision carries the option, every stored revision is the only child of its parent *)
+  Theorem conflict_free_unforced_one_child_per_parent :
+    (forall o, In o ops -> w_push o <> [] -> o_force (w_opt o) = false) -> uc (d_tree (st s)).
+  Proof.
+    intros Hnf. pose proof (run_linv false tab ops sched) as L. fold s in L. rewrite (li_tree _ _ _ _ L).
+    apply lin_uc with tab; [apply (li_lin _ _ _ _ L)|]. intros c Hc.
+    destruct (commits_are_acks false tab ops sched c Hc) as (_ & _ & _ & _ & Hin). apply Hnf, Hin.
+  Qed.
 End ConflictFree.
 
 (* a concrete conflict-free run for the non-vacuity example in C05_Properties.v: three REST writers and three pushes
    (one refused by the generation check, one refused as a conflict) *)
 Definition cf_ops : list wop :=
-  [ {| w_tag := 1; w_parent := None; w_deleted := false; w_push := [(1, 1)]; w_reject := false; w_fail_after := []; w_fail_write := false |};
-    {| w_tag := 2; w_parent := Some (1, 1); w_deleted := false; w_push := []; w_reject := false; w_fail_after := []; w_fail_write := false |};
-    {| w_tag := 3; w_parent := Some (1, 1); w_deleted := false; w_push := []; w_reject := false; w_fail_after := []; w_fail_write := false |};
-    {| w_tag := 4; w_parent := None; w_deleted := false; w_push := [(4, 40); (3, 33); (2, 22)]; w_reject := false; w_fail_after := []; w_fail_write := false |};
-    {| w_tag := 5; w_parent := None; w_deleted := false; w_push := [(2, 50); (2, 22)]; w_reject := false; w_fail_after := []; w_fail_write := false |};
-    {| w_tag := 6; w_parent := None; w_deleted := false; w_push := [(2, 60); (1, 1)]; w_reject := false; w_fail_after := []; w_fail_write := false |} ].
+  [ {| w_tag := 1; w_parent := None; w_deleted := false; w_push := [(1, 1)]; w_reject := false; w_fail_after := []; w_fail_write := false; w_opt := no_opts |};
+    {| w_tag := 2; w_parent := Some (1, 1); w_deleted := false; w_push := []; w_reject := false; w_fail_after := []; w_fail_write := false; w_opt := no_opts |};
+    {| w_tag := 3; w_parent := Some (1, 1); w_deleted := false; w_push := []; w_reject := false; w_fail_after := []; w_fail_write := false; w_opt := no_opts |};
+    {| w_tag := 4; w_parent := None; w_deleted := false; w_push := [(4, 40); (3, 33); (2, 22)]; w_reject := false; w_fail_after := []; w_fail_write := false; w_opt := no_opts |};
+    {| w_tag := 5; w_parent := None; w_deleted := false; w_push := [(2, 50); (2, 22)]; w_reject := false; w_fail_after := []; w_fail_write := false; w_opt := no_opts |};
+    {| w_tag := 6; w_parent := None; w_deleted := false; w_push := [(2, 60); (1, 1)]; w_reject := false; w_fail_after := []; w_fail_write := false; w_opt := no_opts |} ].
 Definition cf_tab : digtab := [((2, Some (1, 1)), 22); ((3, Some (1, 1)), 31)].
 Definition cf_sched : list sstep :=
   [Prepare 0; Write 0; Prepare 1; Prepare 2; Write 1; Write 2; Prepare 2; Prepare 3; Prepare 4; Write 4; Write 3; Prepare 5; Write 5]%nat.
